@@ -822,6 +822,9 @@ func (r *sysRun) doQuery(o op, specOnly bool) {
 				finding = "F02"
 			case first == "41" && cls["41"]:
 				finding = "F45"
+			case f["hullbad"] == "1":
+				// a hidden event outside the hull the index holds for its chunk: every hull is exact or over-wide on any data since
+				// lightFill scans all records (3cb83a3, was the second half of F04) — never the open finding F04: stays unattributed
 			case cls["24"]:
 				finding = "F24"
 			case cls["4"]:
@@ -1250,7 +1253,7 @@ func runDoc(d replayDoc, section string, sec *vh.Section, verbose bool) {
 }
 
 func sectionCorpus() {
-	sec := res.Section("corpus", "corpus", "witnesses of the fixed findings F01, F02, F03, F45 (regression cases that must pass) and of the open findings F04, F24 plus minimised past failures; each is one history (or one interval sequence) replayed against IMPL, MODEL and SPEC")
+	sec := res.Section("corpus", "corpus", "witnesses of the fixed findings F01, F02, F03, F45 and of the repaired lightFill hull (f04-lightfill-crash: non-monotone chunk the index does not know, crash image — must pass since 3cb83a3) and of the open findings F04, F24 plus minimised past failures; each is one history (or one interval sequence) replayed against IMPL, MODEL and SPEC")
 	for _, f := range vh.CorpusFiles(args.Corpus) {
 		var d replayDoc
 		if err := vh.ReadJSON(f, &d); err != nil {
